@@ -32,7 +32,7 @@ def fun_items():
 
 TIES = ["packets._extract_bits = Model/Cursor.v extract_bits (gen_extract_bits_is_model)",
         "RawPacketData.read_as_int = read_as_int (gen_read_as_int_is_model; generated_read_as_int_meets_C03, generated_reads_compose_C03)",
-        "RawPacketData.read_as_bytes = read_as_bytes (gen_read_as_bytes_is_model; generated_read_as_bytes_meets_C03)",
+        "RawPacketData.read_as_bytes = read_as_bytes (gen_read_as_bytes_is_model; generated_read_as_bytes_meets_C03, generated_read_as_bytes_aligned_C03)",
         "RawPacketData header accessors and header_values = Model/Header.v header_values (gen_header_values_is_model, gen_header_values_total)"]
 
 
